@@ -49,7 +49,12 @@ def make_cases(chk, rng):
         h = gen_sol.Hist(rng, f"r{i}", be, 0, st, dims=(n, None, None))
         h.setup().precheck()
         for _ in range(rng.choice([1, 2, 3])):
-            h.update(rng.randrange(256), rng.random() < 0.6).precheck()
+            if rng.random() < 0.5:
+                # the preconditioner settings may change between re-scalings (a cached inverse must not survive that)
+                h.settings(preconditioner_scale_cost=rng.choice([0, 1]), preconditioner_iter=rng.choice([0, 1, 2, 10]))
+            h.update(rng.randrange(256), rng.random() < 0.5).precheck()
+        if rng.random() < 0.5:
+            h.solve()
         cases.append(h.case(kind="random"))
     return cases
 
